@@ -44,6 +44,8 @@ def work(item):
     aat = set(ctx.atom(x) for x in a)
     bat = set(ctx.atom(x) for x in b)
 
+    RAW = {}
+
     def run_op(fn, x, y):
         ps = h.run(fn, [I(d), Buf('a', x), Buf('b', y), Buf('o', n=n)])
         exstats.append(h.last_ex.stats)
@@ -56,6 +58,7 @@ def work(item):
                                       'kind': 'unwritten', 'd': d, 'fn': fn})
             return None
         out['witnesses']['reachability'] += 1
+        RAW.setdefault(fn, vals)
         return [ctx.poly(v) for v in vals]
 
     def decide(name, polys, fn, sens_poly=None):
@@ -146,6 +149,43 @@ def work(item):
         out['obligations'].append({'obligation': 'ACommutator bilinear d=%d' % d, 'verdict': 'holds (every monomial is a_i*b_j)' if bil else 'FAILS'})
         if not bil:
             out['candidates'].append({'key': 'h_acomm:d=%d:bilinear' % d, 'what': 'ACommutator is not bilinear', 'kind': 'structure', 'd': d, 'fn': 'h_acomm'})
+    # ---- the same results when the target shares storage with an operand or already has content
+    MODES = {0: 'target = second vector viewing the buffer of A', 1: 'target = second vector viewing the buffer of B', 2: 'target already holds the other operation\'s result', 3: 'target = A itself'}
+    for which, base, nm in ((0, O, 'iCommutator'), (1, Q, 'ACommutator')):
+        if base is None:
+            continue
+        base_t = RAW['h_icomm' if which == 0 else 'h_acomm']
+        for mode in (0, 1, 2, 3):
+            ps = h.run('h_comm_into', [I(which), I(mode), I(d), Buf('a', a), Buf('b', b), Buf('o', n=n)])
+            exstats.append(h.last_ex.stats)
+            if len(ps) != 1 or ps[0].status != 'ok' or ps[0].ret != 0:
+                out['broken'].append('h_comm_into %d %d d=%d: %r' % (which, mode, d, ps))
+                continue
+            vals = ps[0].out('o')
+            if any(v is None for v in vals):
+                out['candidates'].append({'key': 'h_comm_into:%d:%d:d=%d' % (which, mode, d), 'what': '%s leaves a component unwritten (%s)' % (nm, MODES[mode]), 'kind': 'into', 'd': d, 'fn': 'h_comm_into', 'which': which, 'mode': mode})
+                continue
+            # cheap screen first (an in-place evaluation over operands it still reads makes the terms cascade, whose normal form explodes):
+            # both sides evaluated exactly at a random rational point
+            import random as _rnd
+            rr_ = _rnd.Random(1234 + d + 7 * which + mode)
+            env_ = {('a%d' % k): Fraction(rr_.randint(-9, 9), 10) for k in range(n)}
+            env_.update({('b%d' % k): Fraction(rr_.randint(-9, 9), 10) for k in range(n)})
+            want_pt = [base_t[k] if not isinstance(base_t[k], Term) else T.evaluate(base_t[k], env_, real=True) for k in range(n)]
+            got_pt = [v if not isinstance(v, Term) else T.evaluate(v, env_, real=True) for v in vals]
+            offp = [k for k in range(n) if abs(Fraction(got_pt[k]) - Fraction(want_pt[k])) > Fraction(1, 10 ** 9)]
+            if offp:
+                out['candidates'].append({'key': 'h_comm_into:%d:%d:d=%d' % (which, mode, d), 'what': '%s(A,B) gives another result when %s (component %d at a rational test point) than when assigned to a fresh vector' % (nm, MODES[mode], offp[0]),
+                                          'kind': 'into', 'd': d, 'fn': 'h_comm_into', 'which': which, 'mode': mode})
+                continue
+            got = [ctx.poly(v) for v in vals]
+            diff = [x - y for x, y in zip(got, base)]
+            if all(p_.l1() <= res.tol for p_ in diff):
+                out['obligations'].append({'obligation': '%s(A,B), %s: same result as into a fresh vector, d=%d' % (nm, MODES[mode], d), 'verdict': 'holds', 'max_l1': float(max([p_.l1() for p_ in diff] or [0]))})
+            else:
+                k_ = [k for k, p_ in enumerate(diff) if p_.l1() > res.tol][0]
+                out['candidates'].append({'key': 'h_comm_into:%d:%d:d=%d' % (which, mode, d), 'what': '%s(A,B) gives another result when %s (component %d) than when assigned to a fresh vector' % (nm, MODES[mode], k_),
+                                          'kind': 'into', 'd': d, 'fn': 'h_comm_into', 'which': which, 'mode': mode})
     # ---- scalar product
     ps = h.run('h_trace', [I(d), Buf('a', a), Buf('b', b), Buf('o', n=2)])
     exstats.append(h.last_ex.stats)
@@ -204,6 +244,16 @@ def replay(chk, h, cand):
     d = cand['d']
     n = d * d
     fn = cand['fn']
+    if cand['kind'] == 'into':
+        rng = np.random.RandomState(chk.seed + 9)
+        worst = 0.0
+        for _ in range(4):
+            av, bv = rng.uniform(-1, 1, n), rng.uniform(-1, 1, n)
+            ret, o = h.native('h_comm_into', [I(cand['which']), I(cand['mode']), I(d), Buf('a', av), Buf('b', bv), Buf('o', [np.nan] * n)])
+            ret2, o2 = h.native('h_icomm' if cand['which'] == 0 else 'h_acomm', [I(d), Buf('a', av), Buf('b', bv), Buf('o', [np.nan] * n)])
+            dev = np.abs(np.array(o['o']) - np.array(o2['o'])).max()
+            worst = max(worst, float('inf') if dev != dev else dev)
+        return worst > 1e-9, worst
     if cand['kind'] in ('structure', 'unwritten'):
         # structural findings are replayed with random inputs: compare with the matrix definition
         rng = np.random.RandomState(chk.seed + 7)
